@@ -8,9 +8,13 @@
       - Part 1: the interface [sparse_ref vo] - a *sparse list-level refinement structure* on a
         nested value type [vo : valops V O E]: a specification [vspec : list O → V] of op lists,
         the dot an op carries ([vodot]), the shape of an op carried by an update with dot [d]
-        ([vtag d]), well-formed universes of ops ([vuniv]), and the laws: default, extensionality,
-        apply of a fresh op, merge of two sides of a universe, [reset_remove] by a clock that
-        covers no dot of the universe is the identity, universes grow by new ops ([vnewop]);
+        ([vtag d]), well-formed universes of ops inside an ambient dot set ([vuniv A U]: for the
+        value under key [k] of a map the ambient dots are the dots of the updates of [k]), and the
+        laws: default, extensionality, apply of a fresh op, merge of two sides of a universe,
+        [reset_remove] by a clock that covers no ambient dot is the identity, universes grow by
+        new ops ([vnewop]) and with the ambient set.  Derived notions: the clock [sclk] of an op
+        list, [sside U os] (the ops a replica knows: a dot-carrying op of the universe whose dot
+        the replica's clock covers is known), [dclk]/[aclk] (clocks made of dots);
       - Part 2: the functor: if [vo] has the structure, so has [map_valops vo], with
         [mspec_nk_of X os] (map clock, key set, entry clocks, under every key [vspec] of the
         projected ops, no pending remove) - [map_sr];
@@ -32,6 +36,12 @@ From Coq Require Import ZifyBool ZifyN ZifyNat.
 Local Open Scope N_scope.
 
 (** * Part 1: the interface *)
+
+(** every positive component of [x] is a dot of the (ambient) dot set [A] *)
+Definition aclk (A : dot → Prop) (x : gmap N N) : Prop := ∀ a, 0 < vget x a → A (Dot a (vget x a)).
+Lemma aclk_mono (A A' : dot → Prop) x : (∀ d, A d → A' d) → aclk A x → aclk A' x.
+Proof. intros HA Hx a Ha. by apply HA, Hx. Qed.
+
 Section derived.
   Context {O : Type} (vodot : O → option dot).
   (** the dots of an op list and their join: the clock of the specification *)
@@ -40,6 +50,8 @@ Section derived.
   (** every positive component of [x] is the dot of an op of [U] *)
   Definition dclk (U : list O) (x : gmap N N) : Prop :=
     ∀ a, 0 < vget x a → ∃ o, o ∈ U ∧ vodot o = Some (Dot a (vget x a)).
+  (** the dots of the ops of [U] belong to the (ambient) dot set [A] *)
+  Definition dots_in (A : dot → Prop) (U : list O) : Prop := ∀ o d, o ∈ U → vodot o = Some d → A d.
   (** the ops a replica knows: ops of the universe; a dot-carrying op of the universe whose dot
       the replica's clock covers is known *)
   Definition sside (U os : list O) : Prop :=
@@ -69,6 +81,8 @@ Section derived.
     destruct (max_ctr_witness (sdots os) a) as [?|([a' n] & Hin & Ha & Hc)]; [lia|]. cbn in Ha, Hc. subst a'.
     rewrite <- Hc. apply elem_of_sdots in Hin as (o & Ho & Hd). exists o. split; [by apply HS|done].
   Qed.
+  Lemma dclk_aclk A U x : dots_in A U → dclk U x → aclk A x.
+  Proof. intros HA Hx a Ha. destruct (Hx a Ha) as (o & Ho & Hd). by eapply HA. Qed.
 End derived.
 
 Record sparse_ref {V O E : Type} (vo : valops V O E) := SparseRef {
@@ -76,38 +90,43 @@ Record sparse_ref {V O E : Type} (vo : valops V O E) := SparseRef {
   vspec : list O → V;                     (* the state a replica that knows the ops [os] is in *)
   vodot : O → option dot;                  (* the dot an op carries *)
   vtag : dot → O → Prop;                  (* shape of an op carried by a [Map] update with dot [d] *)
-  vuniv : list O → Prop;                  (* well-formed universes "all ops ever generated" *)
-  vnewop : list O → dot → O → Prop;       (* [o], tagged [d], may be added to the universe [U] *)
+  vuniv : (dot → Prop) → list O → Prop;   (* well-formed universes "all ops ever generated", inside
+                                             an ambient dot set [A] (the dots of the enclosing updates) *)
+  vnewop : (dot → Prop) → list O → dot → O → Prop; (* [o], tagged [d], may be added to the universe [U] *)
   (** laws *)
   vspec_nil : vspec [] = v_default vo;
   vspec_ext : ∀ os os', (∀ o, o ∈ os ↔ o ∈ os') → vspec os = vspec os';
   vtag_dot : ∀ d d' o, vtag d o → vodot o = Some d' → d' = d;
-  vuniv_tag : ∀ U o, vuniv U → o ∈ U → ∃ d, vtag d o;
+  vuniv_tag : ∀ A U o, vuniv A U → o ∈ U → ∃ d, vtag d o;
+  vuniv_dots : ∀ A U, vuniv A U → dots_in vodot A U;
+  vuniv_mono : ∀ (A A' : dot → Prop) U, (∀ d, A d → A' d) → vuniv A U → vuniv A' U;
   vapply_fresh : ∀ os d o, (∀ x, x ∈ os → ∃ d', vtag d' x) → vtag d o →
     vget (sclk vodot os) (dactor d) < dcounter d → v_apply vo (vspec os) o = vspec (os ++ [o]);
-  vmerge_spec : ∀ U os1 os2, vuniv U → sside vodot U os1 → sside vodot U os2 →
+  vmerge_spec : ∀ A U os1 os2, vuniv A U → sside vodot U os1 → sside vodot U os2 →
     v_merge vo (vspec os1) (vspec os2) = vspec (os1 ++ os2);
-  vreset_inert : ∀ U os r, vuniv U → sside vodot U os → (∀ x, dclk vodot U x → inert x r) →
+  vreset_inert : ∀ A U os r, vuniv A U → sside vodot U os → (∀ x, aclk A x → inert x r) →
     v_reset vo (vspec os) r = vspec os;
-  vuniv_nil : vuniv [];
-  vuniv_snoc : ∀ U d o, vuniv U → vnewop U d o → vuniv (U ++ [o]);
-  vnewop_tag : ∀ U d o, vnewop U d o → vtag d o;
+  vuniv_nil : ∀ A, vuniv A [];
+  vuniv_snoc : ∀ A U d o, vuniv A U → vnewop A U d o → vuniv A (U ++ [o]);
+  vnewop_tag : ∀ A U d o, vnewop A U d o → vtag d o;
 }.
 Global Arguments vspec {_ _ _ _} _ _.
 Global Arguments vodot {_ _ _ _} _ _.
 Global Arguments vtag {_ _ _ _} _ _ _.
-Global Arguments vuniv {_ _ _ _} _ _.
-Global Arguments vnewop {_ _ _ _} _ _ _ _.
+Global Arguments vuniv {_ _ _ _} _ _ _.
+Global Arguments vnewop {_ _ _ _} _ _ _ _ _.
 Global Arguments vspec_nil {_ _ _ _} _.
 Global Arguments vspec_ext {_ _ _ _} _ _ _ _.
 Global Arguments vtag_dot {_ _ _ _} _ _ _ _ _ _.
-Global Arguments vuniv_tag {_ _ _ _} _ _ _ _ _.
+Global Arguments vuniv_tag {_ _ _ _} _ _ _ _ _ _.
+Global Arguments vuniv_dots {_ _ _ _} _ _ _ _.
+Global Arguments vuniv_mono {_ _ _ _} _ _ _ _ _ _.
 Global Arguments vapply_fresh {_ _ _ _} _ _ _ _ _ _ _.
-Global Arguments vmerge_spec {_ _ _ _} _ _ _ _ _ _ _.
-Global Arguments vreset_inert {_ _ _ _} _ _ _ _ _ _ _.
-Global Arguments vuniv_nil {_ _ _ _} _.
-Global Arguments vuniv_snoc {_ _ _ _} _ _ _ _ _ _.
-Global Arguments vnewop_tag {_ _ _ _} _ _ _ _ _.
+Global Arguments vmerge_spec {_ _ _ _} _ _ _ _ _ _ _ _.
+Global Arguments vreset_inert {_ _ _ _} _ _ _ _ _ _ _ _.
+Global Arguments vuniv_nil {_ _ _ _} _ _.
+Global Arguments vuniv_snoc {_ _ _ _} _ _ _ _ _ _ _.
+Global Arguments vnewop_tag {_ _ _ _} _ _ _ _ _ _.
 
 (** * Part 2: the functor *)
 
@@ -147,6 +166,18 @@ Section proj.
   Proof. rewrite <- !mside_gside. apply sside_app. Qed.
   Lemma gclk_dclk U k x : gclk U k x → dclk mdot U x.
   Proof. intros Hx a Ha. destruct (Hx a Ha) as [o Ho]. by exists (MUp (Dot a (vget x a)) k o). Qed.
+
+  (** the dots of the updates of key [k]: the ambient dot set of the nested universe under [k];
+      [aclk (kdom U k)] is (by conversion) the [gclk U k] of proofs/MapMapOrswotNK.v *)
+  Definition kdom U k : dot → Prop := λ d, ∃ o, MUp d k o ∈ U.
+  Lemma kdom_mono U U' k d : (∀ o, o ∈ U → o ∈ U') → kdom U k d → kdom U' k d.
+  Proof. intros Hs [o Ho]. exists o. by apply Hs. Qed.
+  Lemma kdom_app_l U U' k d : kdom U k d → kdom (U ++ U') k d.
+  Proof. apply kdom_mono. intros o ?. apply elem_of_app. by left. Qed.
+  Lemma kdom_snoc U d k o : kdom (U ++ [MUp d k o]) k d.
+  Proof. exists o. apply elem_of_app. right. by apply elem_of_list_singleton. Qed.
+  Lemma aclk_kdom U k x : aclk (kdom U k) x ↔ gclk U k x.
+  Proof. done. Qed.
 End proj.
 
 Section functor.
@@ -164,10 +195,13 @@ Section functor.
                  (λ k, Some (MEntry (mspec_entry_clock os k) (vspec X (mproj os k)))))
          ∅.
   (** universes: shape, non-zero dots, and under every key a universe of the nested type *)
-  Definition muniv U : Prop :=
-    mtagged U ∧ (∀ d k o, MUp d k o ∈ U → 0 < dcounter d) ∧ ∀ k, vuniv X (mproj U k).
-  Definition mnewop U d (o : mop O) : Prop :=
-    match o with MUp d' k o' => d' = d ∧ 0 < dcounter d ∧ vnewop X (mproj U k) d o' | MRm _ _ => False end.
+  Definition muniv (A : dot → Prop) U : Prop :=
+    mtagged U ∧ (∀ d k o, MUp d k o ∈ U → 0 < dcounter d ∧ A d) ∧ ∀ k, vuniv X (kdom U k) (mproj U k).
+  Definition mnewop (A : dot → Prop) U d (o : mop O) : Prop :=
+    match o with
+    | MUp d' k o' => d' = d ∧ 0 < dcounter d ∧ A d ∧ vnewop X (kdom (U ++ [o]) k) (mproj U k) d o'
+    | MRm _ _ => False
+    end.
 
   Local Notation S := mspec_nk_of.
   Definition ment os k : mentry V := MEntry (mspec_entry_clock os k) (vspec X (mproj os k)).
@@ -286,13 +320,24 @@ Section functor.
         * rewrite decide_False; [done|]. rewrite elem_of_app, elem_of_list_singleton. intros [?|?]; congruence.
   Qed.
 
+  (** a known update is absorbed (the dedup gate of [Map::apply]; no shape condition needed) *)
+  Lemma mapply_known os d k o : MUp d k o ∈ os → mapply vo (S os) (MUp d k o) = S os.
+  Proof.
+    intros Hin. apply mapply_dedup. cbn [mclock mspec_nk_of]. unfold mspec_clock. rewrite dots_clock_get.
+    apply max_ctr_ge; [|done]. apply elem_of_mall_dots. by exists k, o.
+  Qed.
+
   (** ** L2 on op lists *)
   Section merge.
-    Context (U : list (mop O)) (HU : muniv U).
+    Context (A : dot → Prop) (U : list (mop O)) (HU : muniv A U).
     Lemma mu_norm : g_norm U.
     Proof using HU. apply mtagged_norm, HU. Qed.
     Lemma mu_pos : ∀ d k (o : O), MUp d k o ∈ U → 0 < dcounter d.
-    Proof using HU. apply HU. Qed.
+    Proof using HU. intros d k o Hin. by destruct (proj1 (proj2 HU) d k o Hin). Qed.
+    Lemma mu_dots : dots_in mdot A U.
+    Proof using HU. intros [c ks|d' k o] d Hin [= <-]. by destruct (proj1 (proj2 HU) d' k o Hin). Qed.
+    Lemma gclk_aclk k x : gclk U k x → aclk A x.
+    Proof using HU. intros Hx. eapply dclk_aclk; [apply mu_dots|by eapply gclk_dclk]. Qed.
     Lemma mside_tagged os : gside U os → mtagged os.
     Proof using HU. intros [Hsub _] o Ho. destruct HU as (Hs & _). by apply Hs, Hsub. Qed.
 
@@ -316,8 +361,8 @@ Section functor.
     Lemma minner_reset_inert os k r : gside U os →
       (∀ x, gclk U k x → inert x r) → v_reset vo (vspec X (mproj os k)) r = vspec X (mproj os k).
     Proof using HU.
-      intros HS Hr. apply (vreset_inert X (mproj U k)); [apply HU|by apply mside_proj|].
-      intros x Hx. by apply Hr, dclk_gclk.
+      intros HS Hr. apply (vreset_inert X (kdom U k) (mproj U k)); [apply HU|by apply mside_proj|].
+      intros x Hx. by apply Hr.
     Qed.
 
     Theorem mmerge_nk os1 os2 : gside U os1 → gside U os2 →
@@ -349,7 +394,7 @@ Section functor.
             rewrite vmerge_get in Hz. lia. }
           rewrite He. f_equal. f_equal.
           rewrite (vmerge_comm (mspec_entry_clock os2 k)), vreset_self by done.
-          rewrite (vmerge_spec X (mproj U k) (mproj os1 k) (mproj os2 k) (proj2 (proj2 HU) k)
+          rewrite (vmerge_spec X (kdom U k) (mproj U k) (mproj os1 k) (mproj os2 k) (proj2 (proj2 HU) k)
                      (mside_proj os1 k HS1) (mside_proj os2 k HS2)).
           rewrite <- mproj_app. apply minner_reset_inert; [by apply gside_app|].
           intros x _. apply inert_empty_r.
@@ -366,50 +411,60 @@ Section functor.
         + rewrite decide_False by (rewrite elem_of_app; tauto). done.
     Qed.
 
-    (** [reset_remove] of a specification state by a clock that covers no dot of the universe *)
-    Theorem mreset_nk_inert os r : gside U os → (∀ x, dclk mdot U x → inert x r) →
+    (** [reset_remove] of a specification state by a clock that covers no dot of the ambient set *)
+    Theorem mreset_nk_inert os r : gside U os → (∀ x, aclk A x → inert x r) →
       mreset vo (S os) r = S os.
     Proof using HU.
       intros HS Hr. unfold mreset. apply cmap_eq3; cbn [mclock mentries mdeferred mspec_nk_of].
       - apply inert_vreset_id; [apply dots_clock_wf|]. apply Hr.
-        apply (dclk_sclk mdot U os). by apply mside_gside.
+        apply (dclk_aclk mdot A U); [apply mu_dots|]. apply (dclk_sclk mdot U os). by apply mside_gside.
       - apply map_eq. intros k. rewrite map_lookup_imap.
         change (fn_map _ _) with (mentries (S os)). rewrite mentries_lookup.
         destruct (decide _) as [Hin|Hin]; [|done]. cbn [mbind option_bind ment eclock eval].
         pose proof (gclk_entry_clock U mu_norm mu_pos os k HS) as Hek.
-        rewrite (inert_vreset_id _ r) by (apply dots_clock_wf || by eapply Hr, gclk_dclk).
+        rewrite (inert_vreset_id _ r) by (apply dots_clock_wf || by eapply Hr, gclk_aclk).
         rewrite (proj2 (vis_empty_false _) (g_entry_clock_ne U mu_norm mu_pos os k HS Hin)).
-        rewrite minner_reset_inert; [done|done|]. intros x Hx. by eapply Hr, gclk_dclk.
+        rewrite minner_reset_inert; [done|done|]. intros x Hx. by eapply Hr, gclk_aclk.
       - apply mreset_empty_deferred.
     Qed.
   End merge.
 
-  Lemma muniv_nil : muniv [].
+  Lemma muniv_nil A : muniv A [].
   Proof.
     split_and!; [by intros ? ?%elem_of_nil|by intros ??? ?%elem_of_nil|intros k; apply (vuniv_nil X)].
   Qed.
-  Lemma mnewop_tag U d o : mnewop U d o → mtag d o.
-  Proof. destruct o as [c ks|d' k o']; [done|]. intros (-> & _ & Hn). split; [done|]. by eapply vnewop_tag. Qed.
-  Lemma muniv_snoc U d o : muniv U → mnewop U d o → muniv (U ++ [o]).
+  Lemma muniv_mono (A A' : dot → Prop) U : (∀ d, A d → A' d) → muniv A U → muniv A' U.
   Proof.
-    intros (Hs & Hp & Hk) Hn. pose proof (mnewop_tag U d o Hn) as Ht.
-    destruct o as [c ks|d' k o']; [done|]. destruct Hn as (-> & Hd & Hn).
+    intros HA (Hs & Hp & Hk). split_and!; [done| |done].
+    intros d k o Hin. destruct (Hp d k o Hin). split; [done|by apply HA].
+  Qed.
+  Lemma mnewop_tag A U d o : mnewop A U d o → mtag d o.
+  Proof. destruct o as [c ks|d' k o']; [done|]. intros (-> & _ & _ & Hn). split; [done|]. by eapply vnewop_tag. Qed.
+  (** introduction rule, one level at a time *)
+  Lemma mnewop_up (A : dot → Prop) U d k o' : 0 < dcounter d → A d →
+    vnewop X (kdom (U ++ [MUp d k o']) k) (mproj U k) d o' → mnewop A U d (MUp d k o').
+  Proof. by intros ???. Qed.
+  Lemma muniv_snoc A U d o : muniv A U → mnewop A U d o → muniv A (U ++ [o]).
+  Proof.
+    intros (Hs & Hp & Hk) Hn. pose proof (mnewop_tag A U d o Hn) as Ht.
+    destruct o as [c ks|d' k o']; [done|]. destruct Hn as (-> & Hd & HA & Hn).
     split_and!.
     - apply mtagged_app. split; [done|]. intros x ->%elem_of_list_singleton. by exists d.
     - intros d' k' o [Hin|Hin%elem_of_list_singleton]%elem_of_app; [by eapply Hp|]. by simplify_eq.
     - intros k'. destruct (decide (k' = k)) as [->|Hne].
-      + rewrite mproj_snoc_eq. by apply (vuniv_snoc X _ d).
-      + by rewrite mproj_snoc_ne.
+      + rewrite mproj_snoc_eq. apply (vuniv_snoc X _ _ d); [|done].
+        eapply (vuniv_mono X); [|apply Hk]. intros ?. apply kdom_app_l.
+      + rewrite mproj_snoc_ne by done. eapply (vuniv_mono X); [|apply Hk]. intros ?. apply kdom_app_l.
   Qed.
 
   (** ** the functor theorem: [map_valops vo] has the structure whenever [vo] has it *)
   Definition map_sr : sparse_ref (map_valops vo).
   Proof.
     refine (SparseRef _ _ _ (map_valops vo) mspec_nk_of mdot mtag muniv mnewop
-              mspec_nil mspec_ext mtag_dot _ mapply_fresh _ _ muniv_nil muniv_snoc mnewop_tag).
-    - intros U o HU Hin. by apply HU.
-    - intros U os1 os2 HU HS1%mside_gside HS2%mside_gside. by apply (mmerge_nk U HU).
-    - intros U os r HU HS%mside_gside Hr. by apply (mreset_nk_inert U HU).
+              mspec_nil mspec_ext mtag_dot _ mu_dots muniv_mono mapply_fresh _ _ muniv_nil muniv_snoc mnewop_tag).
+    - intros A U o HU Hin. by apply HU.
+    - intros A U os1 os2 HU HS1%mside_gside HS2%mside_gside. by apply (mmerge_nk A U HU).
+    - intros A U os r HU HS%mside_gside Hr. by apply (mreset_nk_inert A U HU).
   Defined.
 End functor.
 Global Arguments map_sr {_ _ _ _} _.
@@ -417,11 +472,11 @@ Global Arguments map_sr {_ _ _ _} _.
 (** * Part 3: the base instance: [Orswot] *)
 Definition odot (o : oop) : option dot := match o with OAdd d _ => Some d | ORm _ _ => None end.
 Definition otag (d : dot) (o : oop) : Prop := match o with OAdd d' _ => d' = d | ORm c _ => vwf c end.
-(** remove contexts store no zero and are made of add dots of the universe; add dots are non-zero *)
-Definition ouniv (P : list oop) : Prop :=
-  (∀ c ms, ORm c ms ∈ P → vwf c ∧ dclk odot P c) ∧ (∀ d ms, OAdd d ms ∈ P → 0 < dcounter d).
-Definition onewop (P : list oop) (d : dot) (o : oop) : Prop :=
-  match o with OAdd d' _ => d' = d ∧ 0 < dcounter d | ORm c _ => vwf c ∧ dclk odot P c end.
+(** remove contexts store no zero and are made of ambient dots; add dots are non-zero ambient dots *)
+Definition ouniv (A : dot → Prop) (P : list oop) : Prop :=
+  (∀ c ms, ORm c ms ∈ P → vwf c ∧ aclk A c) ∧ (∀ d ms, OAdd d ms ∈ P → 0 < dcounter d ∧ A d).
+Definition onewop (A : dot → Prop) (P : list oop) (d : dot) (o : oop) : Prop :=
+  match o with OAdd d' _ => d' = d ∧ 0 < dcounter d ∧ A d | ORm c _ => vwf c ∧ aclk A c end.
 
 Lemma elem_of_osdots p d : d ∈ sdots odot p ↔ ∃ ms, OAdd d ms ∈ p.
 Proof.
@@ -432,7 +487,9 @@ Qed.
 Lemma osclk p : sclk odot p = ospec_clock p.
 Proof. apply dots_clock_ext. intros d. by rewrite elem_of_osdots, elem_of_add_dots. Qed.
 
-Lemma oside_sp_side U p : ouniv U → sside odot U p → sp_side U p.
+Lemma ouniv_dots A U : ouniv A U → dots_in odot A U.
+Proof. intros [_ HU] [d' ms|c ms] d Hin [= <-]. by destruct (HU d' ms Hin). Qed.
+Lemma oside_sp_side A U p : ouniv A U → sside odot U p → sp_side U p.
 Proof.
   intros [HU _] [Hsub Hseen]. split_and!; [done| |].
   - intros c ms Hin. by destruct (HU c ms (Hsub _ Hin)).
@@ -460,27 +517,32 @@ Proof.
     intros c ms' Hin. by destruct (Hs _ Hin) as [d' Ht].
   - by apply (oapply_spec_rm os (os ++ [ORm c ms]) c ms Hos').
 Qed.
-Lemma omerge_sr U os1 os2 : ouniv U → sside odot U os1 → sside odot U os2 →
+Lemma omerge_sr A U os1 os2 : ouniv A U → sside odot U os1 → sside odot U os2 →
   omerge (ospec_of os1) (ospec_of os2) = ospec_of (os1 ++ os2).
-Proof. intros HU HS1 HS2. apply (sparse_L2 U os1 os2 (proj2 HU)); by apply oside_sp_side. Qed.
-Lemma oreset_inert_sr U os r : ouniv U → sside odot U os → (∀ x, dclk odot U x → inert x r) →
+Proof.
+  intros HU HS1 HS2. apply (sparse_L2 U os1 os2); [|by eapply oside_sp_side..].
+  intros d ms Hin. by destruct (proj2 HU d ms Hin).
+Qed.
+Lemma oreset_inert_sr A U os r : ouniv A U → sside odot U os → (∀ x, aclk A x → inert x r) →
   oreset (ospec_of os) r = ospec_of os.
 Proof.
-  intros HU HS Hr. apply ospec_oreset_inert.
+  intros HU HS Hr. pose proof (ouniv_dots A U HU) as HA. apply ospec_oreset_inert.
   - intros c ms Hin. by destruct (proj1 HU c ms (proj1 HS _ Hin)).
-  - by apply Hr, odclk_clock.
-  - intros m. by apply Hr, odclk_entry.
+  - by eapply Hr, dclk_aclk, odclk_clock.
+  - intros m. by eapply Hr, dclk_aclk, odclk_entry.
   - intros c ms Hin. apply Hr. by destruct (proj1 HU c ms (proj1 HS _ Hin)).
 Qed.
-Lemma ouniv_snoc U d o : ouniv U → onewop U d o → ouniv (U ++ [o]).
+Lemma ouniv_mono (A A' : dot → Prop) U : (∀ d, A d → A' d) → ouniv A U → ouniv A' U.
 Proof.
-  intros [Hr Ha] Hn.
-  assert (∀ x, dclk odot U x → dclk odot (U ++ [o]) x) as Hm.
-  { intros x. apply dclk_mono. intros y ?. apply elem_of_app. by left. }
-  split.
-  - intros c ms [Hin|Hin%elem_of_list_singleton]%elem_of_app.
-    + destruct (Hr c ms Hin). split; [done|by apply Hm].
-    + subst o. destruct Hn. split; [done|by apply Hm].
+  intros HA [Hr Ha]. split.
+  - intros c ms Hin. destruct (Hr c ms Hin). split; [done|by eapply aclk_mono].
+  - intros d ms Hin. destruct (Ha d ms Hin). split; [done|by apply HA].
+Qed.
+Lemma ouniv_snoc A U d o : ouniv A U → onewop A U d o → ouniv A (U ++ [o]).
+Proof.
+  intros [Hr Ha] Hn. split.
+  - intros c ms [Hin|Hin%elem_of_list_singleton]%elem_of_app; [by apply (Hr c ms)|].
+    subst o. exact Hn.
   - intros d' ms [Hin|Hin%elem_of_list_singleton]%elem_of_app; [by eapply Ha|].
     subst o. by destruct Hn as [-> ?].
 Qed.
@@ -488,11 +550,11 @@ Qed.
 Definition orswot_sr : sparse_ref orswot_valops.
 Proof.
   refine (SparseRef _ _ _ orswot_valops ospec_of odot otag ouniv onewop
-            ospec_of_nil ospec_of_ext _ _ oapply_fresh_sr omerge_sr oreset_inert_sr _ ouniv_snoc _).
+            ospec_of_nil ospec_of_ext _ _ ouniv_dots ouniv_mono oapply_fresh_sr omerge_sr oreset_inert_sr _ ouniv_snoc _).
   - intros d d' [d0 ms|c ms]; [|done]. cbn. by intros -> [= ->].
-  - intros U [d ms|c ms] [HU _] Hin; [by exists d|]. exists (Dot 0 0). cbn. by destruct (HU c ms Hin).
-  - split; [by intros ?? ?%elem_of_nil|by intros ?? ?%elem_of_nil].
-  - intros U d [d' ms|c ms]; cbn; [by intros [-> _]|by intros [? _]].
+  - intros A U [d ms|c ms] [HU _] Hin; [by exists d|]. exists (Dot 0 0). cbn. by destruct (HU c ms Hin).
+  - intros A. split; [by intros ?? ?%elem_of_nil|by intros ?? ?%elem_of_nil].
+  - intros A U d [d' ms|c ms]; cbn; [by intros [-> _]|by intros [? _]].
 Defined.
 
 (** * Part 4: the reach level, for every depth at once *)
@@ -502,15 +564,15 @@ Section reach.
   Context {Cmd : Type} (gen : cmap V → N → Cmd → option (mop O)) (tocmd : Cmd → mcmd V O).
   Hypothesis gen_mgen : ∀ s a c o, gen s a c = Some o → mgen vo s a (tocmd c) = Some o.
   (** ... whose op at the specification state of a side of a universe is a new op of the universe *)
-  Hypothesis gen_new : ∀ U os a c o, muniv X U → gside U os →
-    gen (mspec_nk_of X os) a c = Some o → ∃ d, mnewop X U d o.
+  Hypothesis gen_new : ∀ U os a c o, muniv X (λ _, True) U → gside U os →
+    gen (mspec_nk_of X os) a c = Some o → ∃ d, mnewop X (λ _, True) U d o.
 
   Local Notation S := (mspec_nk_of X).
   Local Notation mreach := (reach mnew (mapply vo) (mmerge vo) adm_per_actor True).
   Local Notation mhist := (hist_ok mnew (mapply vo) (mmerge vo) gen adm_per_actor True).
   Definition sr_spec (H : list (oprec (mop O))) (K : gset nat) : cmap V := S (known_ops H K).
   Definition sr_hops (H : list (oprec (mop O))) : list (mop O) := op_val <$> H.
-  Definition sr_wfH (H : list (oprec (mop O))) : Prop := owfH (habs H) ∧ muniv X (sr_hops H).
+  Definition sr_wfH (H : list (oprec (mop O))) : Prop := owfH (habs H) ∧ muniv X (λ _, True) (sr_hops H).
   Definition sr_valid (H : list (oprec (mop O))) (K : gset nat) : Prop := ovalid (habs H) K.
 
   Lemma elem_of_sr_hops H o : o ∈ sr_hops H ↔ ∃ i r, H !! i = Some r ∧ op_val r = o.
@@ -558,13 +620,13 @@ Section reach.
     - rewrite (mapply_fresh X _ d); [| |by split|done].
       + apply mspec_ext. intros x. rewrite (known_ops_add_elem H K i r x Hi), Ho.
         by rewrite elem_of_app, elem_of_list_singleton.
-      + by apply (mside_tagged X (sr_hops H) HU), sr_side_known.
+      + by apply (mside_tagged X _ (sr_hops H) HU), sr_side_known.
   Qed.
   Theorem sr_L2 H K1 K2 : sr_wfH H → sr_valid H K1 → sr_valid H K2 →
     mmerge vo (sr_spec H K1) (sr_spec H K2) = sr_spec H (K1 ∪ K2).
   Proof.
     intros [HH HU] HK1 HK2. unfold sr_spec.
-    rewrite (mmerge_nk X (sr_hops H) HU) by (by apply sr_side_known).
+    rewrite (mmerge_nk X _ (sr_hops H) HU) by (by apply sr_side_known).
     apply mspec_ext. intros o. rewrite elem_of_app. symmetry. apply known_ops_union_elem.
   Qed.
 
@@ -596,7 +658,7 @@ Section reach.
     assert (owfH (habs H)) as HH by (by apply (maphist_ok_wf vo), sr_hist_maphist).
     destruct (sr_reach_spec H s K (conj HH IH) Hr) as [-> HK].
     destruct (gen_new (sr_hops H) (known_ops H K) a cmd o IH (sr_side_known H K HH HK) Hgen) as [d Hn].
-    rewrite sr_hops_app. cbn [sr_hops fmap list_fmap op_val]. by apply (muniv_snoc X _ d).
+    rewrite sr_hops_app. cbn [sr_hops fmap list_fmap op_val]. by apply (muniv_snoc X _ _ d).
   Qed.
 
   (** * the theorem, for every nested type with the structure *)
@@ -676,7 +738,7 @@ Section reach.
     Proof using Hok gen_mgen gen_new.
       intros Hr os. pose proof (sr_known_side s K Hr) as HS. fold os in HS.
       rewrite (map_sr_refine H Hok s K Hr). unfold sr_spec. fold os.
-      assert (mtagged X os) as Hs by (apply (mside_tagged X (sr_hops H) (proj2 HW)), HS).
+      assert (mtagged X os) as Hs by (apply (mside_tagged X _ (sr_hops H) (proj2 HW)), HS).
       split_and!; [done|done| | |].
       - rewrite elem_of_dom, mentries_lookup, <- g_mentioned.
         destruct (decide _) as [Hin|Hin].
@@ -702,6 +764,11 @@ Section reach.
 End reach.
 
 Print Assumptions map_sr.
+Print Assumptions mapply_fresh.
+Print Assumptions mapply_known.
+Print Assumptions mmerge_nk.
+Print Assumptions mreset_nk_inert.
+Print Assumptions muniv_snoc.
 Print Assumptions orswot_sr.
 Print Assumptions map_sr_refine.
 Print Assumptions sr_converge.
